@@ -66,14 +66,17 @@ GObjs(i, n) == IF i = 0 THEN {<<>>}
                ELSE UNION { GAdd(objs, i, IF i = n THEN K3 ELSE K4) : objs \in GObjs(i - 1, n) }
 
 \* ---- family D ------------------------------------------------------------------------------------------
+\* N = 3: every position; N = 2: a reduced set for the quick tier
 DObjs ==
     { << Lib(1, k1, <<>>, <<>>, <<>>),
          Idep(<<"-DI2">>, <<"-li2">>, lw2, lwh2, d2),
          Lib(3, k3, lw3, <<>>, d3) >> :
         k1 \in {"shared", "static"},
-        lw2 \in {<<>>, <<1>>}, lwh2 \in {<<>>, <<1>>}, d2 \in {<<>>, <<ExtRef(2)>>, <<ExtRef(4)>>},
-        k3 \in K3, lw3 \in {<<>>, <<1>>},
-        d3 \in {<<>>, <<IdepRef(2)>>, <<ExtRef(1)>>, <<ExtRef(3)>>, <<ExtRef(5)>>, <<IdepRef(2), ExtRef(4)>>} }
+        lw2 \in {<<>>, <<1>>}, lwh2 \in (IF N >= 3 THEN {<<>>, <<1>>} ELSE {<<>>}),
+        d2 \in (IF N >= 3 THEN {<<>>, <<ExtRef(2)>>, <<ExtRef(4)>>} ELSE {<<>>, <<ExtRef(2)>>}),
+        k3 \in (IF N >= 3 THEN K3 ELSE {"lib", "static"}), lw3 \in (IF N >= 3 THEN {<<>>, <<1>>} ELSE {<<>>}),
+        d3 \in (IF N >= 3 THEN {<<>>, <<IdepRef(2)>>, <<ExtRef(1)>>, <<ExtRef(3)>>, <<ExtRef(5)>>, <<IdepRef(2), ExtRef(4)>>}
+                ELSE {<<>>, <<IdepRef(2)>>, <<ExtRef(4)>>, <<ExtRef(1)>>}) }
 DOk(objs) == objs[2].lwh = <<>> \/ (objs[1].k = "static" /\ objs[2].lw = <<>>)
 
 \* ---- family S ------------------------------------------------------------------------------------------
